@@ -75,8 +75,13 @@ def r2(ctx, prog, cfgname):
     rets = [r for r in f.all(kind="ReturnStmt")]
     ctx.check(R, all(rl.var_of(f, f.nodes[r].get("val", -1)) in nexts for r in rets), f.where(), "[%s] the (possibly cut) link is what is returned" % cfgname, key="C17.R2:ret")
     g = prog.fn("mi_is_in_same_page")
-    ok = any(rl.cmp_parts(g, x) and rl.cmp_parts(g, x)[0] == "!=" and g.mentions_call(x, "_mi_ptr_segment") for x in g.all(kind="BinaryOperator")) and \
-        any(True for _ in g.calls(("_mi_segment_page_start", "mi_page_start")))
+    def other_seg(e, pol):
+        return isinstance(e, int) and rl.rel(g, e, pol, lambda j: g.mentions_call(j, "_mi_ptr_segment"), lambda j: True) == "!="
+    gh = [q for p, q, e, pol in rl.edges_with_fact(g, other_seg)]
+    ok = bool(gh) and any(True for _ in g.calls(("_mi_segment_page_start", "mi_page_start")))
+    for q in gh:
+        rets_ = [g.cfg.elem_at(p) for p in g.cfg.reach([q]) if g.cfg.elem_at(p) is not None and g.nodes[g.cfg.elem_at(p)]["k"] == "ReturnStmt"]
+        ok = ok and bool(rets_) and all(g.cv(g.nodes[r].get("val", -1)) == 0 for r in rets_)
     ctx.check(R, ok, g.where(), "[%s] same page = same segment and inside the page area" % cfgname, key="C17.R2:same_page")
 
 
@@ -112,15 +117,14 @@ def r4(ctx, prog, cfgname):
     ctx.check(R, len(maxs) == 1, f.where(), "[%s] max_count = page->capacity" % cfgname, key="C17.R4:max")
     if maxs:
         loops = [l for l in f.all(kind="WhileStmt")]
-        ok = any(any(rl.cmp_parts(f, x) and rl.cmp_parts(f, x)[0] in ("<=", "<") and rl.var_of(f, rl.cmp_parts(f, x)[2]) == maxs[0] for x in f.walk(f.nodes[l]["cond"])) for l in loops)
-        ctx.check(R, ok, f.where(), "[%s] the loop condition includes count <= max_count" % cfgname, key="C17.R4:cond")
+        anyvar = lambda j: f.nodes[j]["k"] == "DeclRefExpr" and f.nodes[j]["dk"] == "local" and f.nodes[j]["d"] != maxs[0]
+        def within(e, pol):
+            return isinstance(e, int) and rl.establishes(f, e, pol, "<=", anyvar, rl.is_local(f, maxs[0]))
+        ok = bool(loops) and any(cfg.guarded(cfg.pt(f.nodes[l]["body"]), within) is None for l in loops)
+        ctx.check(R, ok, f.where(), "[%s] the loop body runs only while count <= max_count" % cfgname, key="C17.R4:cond")
         def over(e, pol):
-            if not isinstance(e, int):
-                return False
-            if not pol:
-                return False   # only the explicit `if (count > max_count)` test, not the negated loop condition
-            c = rl.cmp_parts(f, e)
-            return c is not None and c[0] == ">" and rl.var_of(f, c[2]) == maxs[0]
+            # the explicit test after the walk (an if), not the exit edge of the loop itself
+            return isinstance(e, int) and rl.establishes(f, e, pol, ">", anyvar, rl.is_local(f, maxs[0])) and rl.branch_stmt(f, e) == "IfStmt"
         hit = [q for p, q, e, pol in rl.edges_with_fact(f, over)]
         ok = bool(hit)
         for q in hit:
